@@ -60,6 +60,7 @@ struct Inner {
     ending: bool,
     ignore: Vec<&'static str>,
     only_points: Option<Vec<&'static str>>,
+    eager_others: bool,
     log: Vec<String>,
     keep_log: bool,
 }
@@ -103,6 +104,10 @@ pub struct SchedCfg {
     pub only_points: Option<Vec<&'static str>>,
     pub tick_budget: usize,
     pub keep_log: bool,
+    /// default choice beyond the prefix: false = stay with the running thread (background
+    /// threads run only when everybody else blocks), true = always run the enabled thread that
+    /// registered last (threads spawned by the logger run as early as possible)
+    pub eager_others: bool,
 }
 
 impl Sched {
@@ -123,6 +128,7 @@ impl Sched {
                 ending: false,
                 ignore: cfg.ignore,
                 only_points: cfg.only_points,
+                eager_others: cfg.eager_others,
                 log: Vec::new(),
                 keep_log: cfg.keep_log,
             }),
@@ -214,7 +220,14 @@ impl Sched {
             return;
         }
         let idx = g.points.len();
-        let choice = if idx < g.prefix.len() { g.prefix[idx] } else { 0 };
+        let choice = if idx < g.prefix.len() {
+            g.prefix[idx]
+        } else if g.eager_others {
+            // background threads first: the enabled thread that registered last
+            en.iter().enumerate().max_by_key(|(_, t)| **t).map_or(0, |(i, _)| i)
+        } else {
+            0
+        };
         if choice >= en.len() {
             g.abort = Some(Abort::Diverged(format!(
                 "choice {choice} at point {idx} but only {} enabled",
